@@ -1,5 +1,384 @@
-import StraxModel.Model.Basic
+import StraxModel.Lemmas.PipelineVocab
+/-
+  Property C01 — results do not depend on chunking, processor, parallelism or what is stored.
+
+  Theory T3 (Model/Pipeline.lean): a run is, per data type, a chunk stream; between producer and
+  consumer sits a `Transport` (mailbox / post office / futures in order / save → rechunk → load),
+  in front of a computation an `Aligner` (`Plugin.iter`), the computation is a `Kernel`.
+  `Transport` and `Aligner` are structures that CARRY the layer theorems (content-, law-, range-
+  preservation: C05, C07, C03, C08), `ChunkHom` is the statement a plugin kind owes.  The theorems
+  below hold for ALL graphs, plans, chunkings and stored subsets (no bound on anything):
+
+    pipeline_content   partial correctness: whatever `exec` returns is the whole-run computation
+    pipeline_total     totality on a topologically ordered graph when every layer is total
+    pipeline_correct   both together (the statement of DESIGN §6 C01)
+    stored_of_earlier_run   the hypothesis about storage is discharged by any earlier run
+    pipeline_independent    two runs (different chunkings, plans, stored subsets) agree
+
+  `ChunkHom` instances from first principles: `map_hom`, `filter_hom`, `merge_hom`, `multi_hom`,
+  `loop_hom`, `downchunk_hom`, `exhaust_hom`; awaiting a layer theorem: `overlap_hom_partial` (C09),
+  `iter_aligner_partial` (C08); proved FROM a layer theorem: `rechunk_is_transport` (C07).
+
+  Full statement for the code as it stands (NOT provable: false at the two reproduced defects):
+    ∀ g plan src, TopoOrdered g → LawAbiding sources →
+      (every edge a mailbox / post office / storage round trip, every aligner `Plugin.iter`) →
+      ∃ env, exec plan g src = .ok env ∧ ∀ d, rows (env d) = whole g src d ∧ LawAbiding (env d)
+  Totality fails where `Plugin.iter` gives up after ten passes (D9, C08 `ten_pass_counterexample`),
+  where a stream ends with a zero-duration chunk (D16) and — for the threaded wiring — where a
+  multi-output plugin has a loader-fed sibling (D13, two senders on one mailbox: that edge is not a
+  `Transport`).  Hence the split into `pipeline_content` (unconditional) and `pipeline_total`
+  (hypotheses `Total`).
+-/
 namespace Strax.C01
-open Strax
+open Strax Strax.Pipeline
+
+/-! ## 1. composition: induction over the topological order -/
+
+/-- **Partial correctness, all graphs / plans / chunkings / stored subsets.**  If the sources are
+law-abiding streams over the run `R`, every node's kernel is a chunk homomorphism (its aligner and
+every edge's transport carry their layer theorems by construction) and storage is consistent
+with the whole-run computation, then WHATEVER `exec` returns has, for every data type, exactly the
+rows of the whole-run computation, as a law-abiding stream tiling `R`. -/
+theorem pipeline_content (g : Graph) (plan : Plan) (R : Int × Int) (src env : Env)
+    (hsrc : EnvOK R src)
+    (hhom : ∀ n ∈ g, ChunkHom n.kernel ∧ n.kernel.nIn = n.deps.length ∧ n.deps ≠ [])
+    (hst : StoredOK plan.stored R g (wenvOf src))
+    (h : exec plan g src = .ok env) :
+    ∃ w, whole g (wenvOf src) = .ok w ∧
+      ∀ d s, lookup d env = some s → lookup d w = some (rows s) ∧ Pipeline.LawAbiding s ∧ span s = some R := by
+  obtain ⟨hw, henv⟩ := exec_rel hhom hsrc hst h
+  refine ⟨wenvOf env, hw, ?_⟩
+  intro d s hl
+  have hmem := lookup_mem hl
+  exact ⟨by simp [lookup_wenvOf, hl], henv (d, s) hmem⟩
+
+/-- **Totality.**  On a topologically ordered graph (every dependency a source or provided earlier,
+nothing provided twice, arities right) `exec` succeeds as soon as every transport, aligner and kernel
+is total on law-abiding input.  (For the code as it stands the aligner `Plugin.iter` is not total:
+D9, D16.) -/
+theorem pipeline_total (g : Graph) (plan : Plan) (R : Int × Int) (src : Env)
+    (htopo : TopoOrdered (keys src) g) (hsrc : EnvOK R src)
+    (hedge : ∀ c d, (plan.edge c d).Total)
+    (hnodes : ∀ n ∈ g, ChunkHom n.kernel ∧ n.kernel.Total ∧ n.aligner.Total n.deps.length)
+    (hst : StoredOK plan.stored R g (wenvOf src)) :
+    ∃ env, exec plan g src = .ok env :=
+  exec_total hedge htopo hnodes hsrc hst
+
+/-- **C01 as stated in DESIGN §6**: acyclic (topologically ordered) graph → every edge a transport
+(by typing) → every node a chunk homomorphism → for every data type `d`:
+`rows (exec g plan d) = whole g src d ∧ LawAbiding (exec g plan d)`, and the stream tiles the run. -/
+theorem pipeline_correct (g : Graph) (plan : Plan) (R : Int × Int) (src : Env)
+    (htopo : TopoOrdered (keys src) g) (hsrc : EnvOK R src)
+    (hedge : ∀ c d, (plan.edge c d).Total)
+    (hnodes : ∀ n ∈ g, ChunkHom n.kernel ∧ n.kernel.Total ∧ n.aligner.Total n.deps.length)
+    (hst : StoredOK plan.stored R g (wenvOf src)) :
+    ∃ env w, exec plan g src = .ok env ∧ whole g (wenvOf src) = .ok w ∧
+      ∀ d s, lookup d env = some s → lookup d w = some (rows s) ∧ Pipeline.LawAbiding s ∧ span s = some R := by
+  obtain ⟨env, he⟩ := pipeline_total g plan R src htopo hsrc hedge hnodes hst
+  obtain ⟨w, hw, hall⟩ := pipeline_content g plan R src env hsrc
+    (hom_of_topo htopo (fun n hn => (hnodes n hn).1)) hst he
+  exact ⟨env, w, he, hw, hall⟩
+
+/-! ## 2. what is stored -/
+
+/-- **Storage filled by an earlier run is consistent.**  Run 1 (any plan, nothing stored, sources
+`src1`) ends in `env1`; storage then holds, for some data types, what some transport (save →
+rechunk → load, C03 ∘ C07) makes of run 1's stream.  Then a second run over ANY other chunking of
+the same source rows (`wenvOf src2 = wenvOf src1`) satisfies the storage hypothesis of
+`pipeline_content`. -/
+theorem stored_of_earlier_run (g : Graph) (plan1 : Plan) (R : Int × Int) (src1 src2 env1 : Env)
+    (stored : List (String × List Chunk))
+    (htopo : TopoOrdered (keys src1) g) (hsrc1 : EnvOK R src1)
+    (hhom : ∀ n ∈ g, ChunkHom n.kernel)
+    (hempty : plan1.stored = [])
+    (h1 : exec plan1 g src1 = .ok env1)
+    (hsame : wenvOf src2 = wenvOf src1)
+    (hstore : ∀ d s, lookup d stored = some s → ∃ s0, ∃ T : Transport, lookup d env1 = some s0 ∧ T.run s0 = .ok s) :
+    StoredOK stored R g (wenvOf src2) := by
+  obtain ⟨hw, henv1⟩ := exec_rel (hom_of_topo htopo hhom) hsrc1 (by rw [hempty]; exact storedOK_nil R g _) h1
+  rw [hsame]
+  apply storedOK_of_final (w' := wenvOf env1) (by rw [keys_wenvOf]; exact htopo) hw
+  intro d s hs r hr
+  obtain ⟨s0, T, hl0, hT⟩ := hstore d s hs
+  obtain ⟨hlaw0, hspan0⟩ := henv1 (d, s0) (lookup_mem hl0)
+  rw [lookup_wenvOf, hl0] at hr
+  simp only [Option.map_some, Option.some.injEq] at hr
+  exact ⟨T.law hlaw0 hT, by rw [T.range hlaw0 hT]; exact hspan0, by rw [T.content hlaw0 hT]; exact hr⟩
+
+/-- **Independence.**  Two successful runs of the same graph over two chunkings of the same source
+rows — different plans (processor, workers, lazy, capacity, rechunking) and different stored
+subsets, each consistent — return the same rows for every data type. -/
+theorem pipeline_independent (g : Graph) (planA planB : Plan) (R : Int × Int) (srcA srcB envA envB : Env)
+    (hA : EnvOK R srcA) (hB : EnvOK R srcB) (hsame : wenvOf srcA = wenvOf srcB)
+    (hhom : ∀ n ∈ g, ChunkHom n.kernel ∧ n.kernel.nIn = n.deps.length ∧ n.deps ≠ [])
+    (hstA : StoredOK planA.stored R g (wenvOf srcA)) (hstB : StoredOK planB.stored R g (wenvOf srcB))
+    (eA : exec planA g srcA = .ok envA) (eB : exec planB g srcB = .ok envB) :
+    ∀ d sA sB, lookup d envA = some sA → lookup d envB = some sB → rows sA = rows sB := by
+  obtain ⟨wA, hwA, allA⟩ := pipeline_content g planA R srcA envA hA hhom hstA eA
+  obtain ⟨wB, hwB, allB⟩ := pipeline_content g planB R srcB envB hB hhom hstB eB
+  rw [hsame] at hwA
+  rw [hwA] at hwB
+  cases hwB
+  intro d sA sB hlA hlB
+  have a := (allA d sA hlA).1
+  have b := (allB d sB hlB).1
+  rw [a] at b
+  exact Option.some.inj b
+
+/-! ## 3. closure of transports -/
+
+/-- delivering the very stream that was sent is a transport (what C05 `delivery_exact` proves of a
+mailbox for every schedule, T7 of the post office) -/
+theorem transport_ident_run (s : List Chunk) : Transport.ident.run s = .ok s := rfl
+
+/-- the composition of two transports is a transport (the structure `Transport.comp` carries the
+three preservation proofs); it runs one after the other -/
+theorem transport_comp_run (t1 t2 : Transport) (s : List Chunk) :
+    (t1.comp t2).run s = (match t1.run s with
+      | .error e => .error e
+      | .ok m => t2.run m) := rfl
+
+/-- any re-partitioning (`rechunkAll`, save ∘ load, a loader that re-splits) is a transport as soon
+as its layer theorem gives content-, law- and range-preservation -/
+theorem transport_of_spec (f : List Chunk → Except Err (List Chunk))
+    (h : ∀ inp out, Pipeline.LawAbiding inp → f inp = .ok out → rows out = rows inp ∧ Pipeline.LawAbiding out ∧ span out = span inp) :
+    ∃ T : Transport, T.run = f := ⟨Transport.ofSpec f h, rfl⟩
+
+/-- the coarsest re-partitioning (one chunk for the whole run) is a transport, from first principles -/
+theorem concat_is_transport : ∃ T : Transport, (∀ s, T.run s = .ok (concatAll s)) ∧ T.Total :=
+  ⟨Transport.concat, fun _ => rfl, Transport.concat_total⟩
+
+/-- **rechunk-on-save is a transport** on plain streams (one run and data type, targets ≥ 1 row):
+proved from C07's stream theorem `Strax.rechunk_aux` (= `C07.rechunk_stream`); total there -/
+theorem rechunk_is_transport :
+    ∃ T : Transport, (∀ s, plainStreamB s = true → T.run s = rechunkAll (-1) ⟨true, false, none⟩ s) ∧
+      ∀ s, plainStreamB s = true → ∃ out, T.run s = .ok out :=
+  ⟨Transport.rechunk, fun s h => by simp [Transport.rechunk, Transport.ofSpec, rechunkRun, h],
+    Transport.rechunk_total_on_plain⟩
+
+theorem comp_total (t1 t2 : Transport) (h1 : t1.Total) (h2 : t2.Total) : (t1.comp t2).Total :=
+  Transport.comp_total h1 h2
+
+/-! ## 4. `ChunkHom` of the plugin kinds, from first principles -/
+
+/-- row-wise plugins (one output row per input row, same interval): ANY law-abiding partition of the
+input gives the whole-run rows -/
+theorem map_hom (f : Row → Row) (hf : ∀ r, (f r).time = r.time ∧ (f r).endt = r.endt) (out : String) :
+    ChunkHom (mapKernel (fun r => some (f r)) out) :=
+  mapKernel_hom (fun r r' h => by simp only [Option.some.injEq] at h; subst h; exact hf r) out
+
+/-- filtering plugins -/
+theorem filter_hom (p : Row → Bool) (out : String) :
+    ChunkHom (mapKernel (fun r => if p r then some r else none) out) :=
+  mapKernel_hom (fun r r' h => by
+    split at h
+    · cases h; exact ⟨rfl, rfl⟩
+    · cases h) out
+
+/-- row-wise + filtering in one (`g r = none` drops the row) -/
+theorem filterMap_hom (g : Row → Option Row) (hg : IntervalPreserving g) (out : String) :
+    ChunkHom (mapKernel g out) := mapKernel_hom hg out
+
+/-- same-kind merge of two data types followed by a row-wise computation -/
+theorem merge_hom (h : Row → Row → Row) (hh : KeepsFirstInterval h) (out : String) :
+    ChunkHom (mergeKernel h out) := mergeKernel_hom hh out
+
+/-- multi-output plugins: component-wise -/
+theorem multi_hom (k1 k2 : Kernel) (h1 : ChunkHom k1) (h2 : ChunkHom k2) (hn : k2.nIn = k1.nIn) :
+    ChunkHom (pairKernel k1 k2) := pairKernel_hom h1 h2 hn
+
+/-- loop plugins (`fully_contained`): for every base row the things inside it.  The proof uses
+that an aligned partition of the things is determined by its boundaries (`LawAbiding.canonical`),
+so the things contained in a base lie in the chunk that carries the base.  The selection is the
+quadratic definition; that `split_by_containment` computes it is C17 `split_by_containment_spec`. -/
+theorem loop_hom (F : Row → List Row → Row) (hF : KeepsBaseInterval F) (out : String) :
+    ChunkHom (loopKernel F out) := loopKernel_hom hF out
+
+/-- down-chunking plugins: whatever lawful pieces `compute` cuts every input chunk into -/
+theorem downchunk_hom (sub : Chunk → List Chunk) (g : Row → Option Row) (hs : SubOK sub g) :
+    ChunkHom (downKernel sub g) := downKernel_hom hs
+
+/-- exhaust plugins: a single call on the concatenated run, for ANY whole-run computation `w` whose
+result obeys the laws inside the run (no homomorphism property of `w` is needed) -/
+theorem exhaust_hom (w : List Row → List Row) (hw : RangeLaw w) (out : String) :
+    ChunkHom (exhaustKernel w out) := exhaustKernel_hom hw out
+
+/-- the input side of a single-dependency plugin and of the exhaust plugin (everything concatenated)
+are aligners from first principles, and total -/
+theorem single_aligner_total : Aligner.single.Total 1 := by
+  intro R ins hl _ _
+  obtain ⟨s, rfl⟩ := List.length_eq_one_iff.mp hl
+  exact ⟨_, rfl⟩
+
+theorem exhaust_aligner_total : Aligner.exhaust.Total 1 := by
+  intro R ins hl _ _
+  obtain ⟨s, rfl⟩ := List.length_eq_one_iff.mp hl
+  exact ⟨_, rfl⟩
+
+/-! ## 5. instances that await a layer theorem -/
+
+/-- overlap-window plugins.  Awaits C09 (`overlap_whole` at full strength: for a window-local `f` the
+state machine `Overlap.runOverlap f w` yields a law-abiding stream over the run whose rows are
+`f (rows s)`); given that theorem as `hspec`, the plugin kind is a chunk homomorphism. -/
+theorem overlap_hom_partial (f : List Row → List Row) (w : Int × Int)
+    (hspec : StreamSpec (Overlap.runOverlap f w) f) : ChunkHom (overlapKernel f w) :=
+  streamKernel_hom hspec
+
+/-- `Plugin.iter` as an aligner.  Awaits C08 at full strength: C08 proves `calls_aligned`,
+`calls_adjacent` and `rows_once_in_order_all` of `Align.iterRun`; still owed are "every row handed
+over lies inside its call" and "the last call ends at the end of the run" (validity of the
+intermediate chunks).  Given them in the form `hspec`, `Plugin.iter` is an `Aligner`. -/
+theorem iter_aligner_partial (deps : List Align.Dep) (strict : Bool)
+    (hspec : ∀ R ins out, ins ≠ [] → StreamsOK R ins → iterAligner deps strict ins = .ok out →
+      Aligned R out ∧ out.map rows = ins.map rows) :
+    ∃ A : Aligner, A.run = iterAligner deps strict :=
+  ⟨Aligner.ofSpec _ hspec, rfl⟩
+
+/-- `n` touching rows of length 2 starting at `off` -/
+def brick (off : Int) (idoff n : Nat) : List Row :=
+  (List.range n).map fun (i : Nat) => ⟨2 * Int.ofNat i + off, 2 * Int.ofNat i + off + 2, i + idoff⟩
+
+/-- the ten-pass limit is visible here: on the brick pattern of C08 `ten_pass_counterexample` the
+aligner `Plugin.iter` returns an error, so no totality statement holds of it (D9) -/
+theorem iter_aligner_not_total_witness :
+    ∃ (deps : List Align.Dep) (ins : List (List Chunk)),
+      (∀ s ∈ ins, Pipeline.LawAbiding s) ∧ iterAligner deps true ins = .error .runtimeError := by
+  refine ⟨[⟨"aa", "ka"⟩, ⟨"bb", "kb"⟩],
+    [[⟨"aa", "ka", some "0", 0, 30, brick 0 0 15, none, [⟨"0", 0, 30⟩], 0⟩,
+      ⟨"aa", "ka", some "0", 30, 60, brick 30 15 15, none, [⟨"0", 30, 60⟩], 0⟩],
+     [⟨"bb", "kb", some "0", 0, 31, brick 1 0 15, none, [⟨"0", 0, 31⟩], 0⟩,
+      ⟨"bb", "kb", some "0", 31, 60, brick 31 15 14, none, [⟨"0", 31, 60⟩], 0⟩]],
+    by decide +kernel, by decide +kernel⟩
+
+/-! ## 6. the harness vocabulary: what the driver op `c01.whole` computes is what every successful
+execution returns -/
+
+/-- For a graph of the harness vocabulary (any plan, any aligner for the two-dependency kinds, the
+overlap-window kinds under C09's theorem): every successful execution returns, for every data
+type, the rows the driver computes with `Vocab.wholeV`. -/
+theorem vocab_content_partial (vg : List Vocab.VNode) (a2 : Aligner) (plan : Plan) (R : Int × Int) (src env : Env)
+    (hsrc : EnvOK R src) (htopo : TopoOrdered (keys src) (vg.map (Vocab.toNode a2)))
+    (hov : ∀ n ∈ vg, ∀ w, n.kind = .overlap w →
+      StreamSpec (Overlap.runOverlap (Vocab.overlapWhole w) (w, w)) (Vocab.overlapWhole w))
+    (hst : StoredOK plan.stored R (vg.map (Vocab.toNode a2)) (wenvOf src))
+    (h : exec plan (vg.map (Vocab.toNode a2)) src = .ok env) :
+    ∃ w, Vocab.wholeV vg (wenvOf src) = .ok w ∧
+      ∀ d s, lookup d env = some s → lookup d w = some (rows s) ∧ Pipeline.LawAbiding s ∧ span s = some R := by
+  have hhom : ∀ n ∈ vg.map (Vocab.toNode a2), ChunkHom n.kernel := by
+    intro n hn
+    simp only [List.mem_map] at hn
+    obtain ⟨v, hv, rfl⟩ := hn
+    simp only [Vocab.toNode]
+    cases hk : Vocab.isOverlap v.kind with
+    | false => exact Vocab.kernelOf_hom _ _ hk
+    | true =>
+      cases hkind : v.kind with
+      | overlap w => exact Vocab.kernelOf_hom_overlap w _ (hov v hv w hkind)
+      | _ => simp [hkind, Vocab.isOverlap] at hk
+  obtain ⟨w, hw, hall⟩ := pipeline_content _ plan R src env hsrc (hom_of_topo htopo hhom) hst h
+  refine ⟨w, ?_, hall⟩
+  rw [← Vocab.whole_eq_wholeV a2 vg _ ?_]
+  · exact hw
+  · -- a node without outputs cannot be part of a topologically ordered graph that executes: its
+    -- kernel has at least one output
+    intro n hn hout
+    have hmem : Vocab.toNode a2 n ∈ vg.map (Vocab.toNode a2) := List.mem_map.2 ⟨n, hn, rfl⟩
+    have : ∀ {known : List String} {g : Graph}, TopoOrdered known g → ∀ m ∈ g, m.kernel.nOut = m.provides.length := by
+      intro known g
+      induction g generalizing known with
+      | nil => intro _ m hm; simp at hm
+      | cons x g ih =>
+        intro ht m hm
+        obtain ⟨-, -, -, -, -, h6, h7⟩ := topo_cons ht
+        simp only [List.mem_cons] at hm
+        rcases hm with rfl | hm
+        · exact h6
+        · exact ih h7 m hm
+    have harity := this htopo _ hmem
+    simp only [Vocab.toNode, hout, List.length_nil] at harity
+    cases hk : n.kind <;> simp [hk, Vocab.kernelOf, mapKernel, mergeKernel, pairKernel, firstKernel, loopKernel,
+      overlapKernel, streamKernel, downKernel, exhaustKernel] at harity
+
+/-! ## 7. non-vacuity: concrete instances of every hypothesis -/
+
+/-- a source chunked in two ways (with an empty and a zero-duration chunk) -/
+def srcRows : List Row := [⟨1, 3, 100⟩, ⟨4, 6, 101⟩, ⟨6, 9, 102⟩, ⟨12, 13, 103⟩]
+def mkC (a b : Int) (rs : List Row) : Chunk := ⟨"sa", "sa", some "0", a, b, rs, none, [⟨"0", a, b⟩], 1⟩
+def chunkingA : List Chunk := [mkC 0 4 [⟨1, 3, 100⟩], mkC 4 4 [], mkC 4 10 [⟨4, 6, 101⟩, ⟨6, 9, 102⟩], mkC 10 11 [], mkC 11 14 [⟨12, 13, 103⟩]]
+def chunkingB : List Chunk := [mkC 0 14 srcRows]
+
+example : Pipeline.LawAbiding chunkingA ∧ Pipeline.LawAbiding chunkingB ∧ span chunkingA = some (0, 14) ∧ span chunkingB = some (0, 14) ∧
+    rows chunkingA = rows chunkingB := by decide
+
+/-- a three-node graph of the vocabulary: row-wise, multi-output (row-wise + filter), same-kind merge -/
+def exGraph : List Vocab.VNode :=
+  [⟨.map 3, ["sa"], ["t1"]⟩, ⟨.multi 1 2 0, ["t1"], ["t2", "t3"]⟩, ⟨.merge, ["sa", "t2"], ["t4"]⟩]
+
+def idPlan : Plan := ⟨fun _ _ => Transport.ident, []⟩
+/-- another plan: every edge re-partitions the stream into one chunk -/
+def concatPlan : Plan := ⟨fun _ _ => Transport.concat, []⟩
+
+/-- for the example the two-dependency aligner only ever sees identically chunked inputs -/
+def exAligner : Aligner := Aligner.ofSpec
+  (fun ins => match ins with
+    | [a, b] => if lawAbidingB a && lawAbidingB b && (bounds a == bounds b) then .ok [a, b] else .error .runtimeError
+    | _ => .error .other)
+  (by
+    intro R ins out _ hok h
+    match ins, h with
+    | [a, b], h =>
+      simp only at h
+      split at h
+      · rename_i hc
+        simp only [Bool.and_eq_true, beq_iff_eq] at hc
+        cases h
+        refine ⟨⟨hok, ?_⟩, rfl⟩
+        intro s hs t ht
+        simp only [List.mem_cons, List.not_mem_nil, or_false] at hs ht
+        rcases hs with rfl | rfl <;> rcases ht with rfl | rfl <;> simp [hc.2]
+      · cases h)
+
+example : TopoOrdered ["sa"] (exGraph.map (Vocab.toNode exAligner)) := by decide
+
+/-- the two chunkings and two plans give different streams … -/
+example : (exec idPlan (exGraph.map (Vocab.toNode exAligner)) [("sa", chunkingA)]).toOption.map
+      (fun env => (lookup "t4" env).map (·.length)) = some (some 5) ∧
+    (exec concatPlan (exGraph.map (Vocab.toNode exAligner)) [("sa", chunkingA)]).toOption.map
+      (fun env => (lookup "t4" env).map (·.length)) = some (some 1) := by decide +kernel
+
+/-- … with the same rows, those of the whole-run computation the driver evaluates -/
+example : (exec idPlan (exGraph.map (Vocab.toNode exAligner)) [("sa", chunkingA)]).toOption.map
+      (fun env => (lookup "t4" env).map (fun s => ids (rows s))) = some (some [736200, 753546, 770892, 788238]) ∧
+    (exec concatPlan (exGraph.map (Vocab.toNode exAligner)) [("sa", chunkingB)]).toOption.map
+      (fun env => (lookup "t4" env).map (fun s => ids (rows s))) = some (some [736200, 753546, 770892, 788238]) ∧
+    (Vocab.wholeV exGraph [("sa", srcRows)]).toOption.map (fun w => (lookup "t4" w).map ids)
+      = some (some [736200, 753546, 770892, 788238]) := by decide +kernel
+
+/-- storage consistent with the run: `t1` stored as ONE chunk (what a rechunking saver leaves) -/
+def storedT1 : List (String × List Chunk) :=
+  [("t1", [⟨"t1", "sa", some "0", 0, 14, srcRows.map (Vocab.mapId 3), none, [⟨"0", 0, 14⟩], 1⟩])]
+
+example : storedOKB storedT1 (0, 14) (exGraph.map (Vocab.toNode exAligner)) [("sa", srcRows)] = true ∧
+    envOKB (0, 14) [("sa", chunkingA)] = true := by decide +kernel
+
+/-- the hypotheses of the kind instances hold of the vocabulary's functions -/
+example : IntervalPreserving (Vocab.gMap 3) ∧ IntervalPreserving (Vocab.gFilter 2 0) ∧
+    KeepsFirstInterval Vocab.mergeId ∧ KeepsBaseInterval Vocab.loopId :=
+  ⟨Vocab.gMap_ip 3, Vocab.gFilter_ip 2 0, Vocab.mergeId_kfi, Vocab.loopId_kbi⟩
+
+example : SubOK (onePiece (Vocab.gMap 3) "t9") (Vocab.gMap 3) := subOK_onePiece (Vocab.gMap_ip 3) _
+
+example : RangeLaw (Vocab.exhaustWhole 2) :=
+  rangeLaw_of_map (f := fun all r => Vocab.exhaustId 2 all.length r) (fun all r => by simp [Vocab.exhaustId])
+
+/-- loop kernel on an aligned partition: bases and the things inside them, cut at the same times -/
+example : (loopKernel Vocab.loopId "t5").chunked
+      [[mkC 0 10 [⟨1, 5, 1⟩, ⟨6, 9, 2⟩], mkC 10 20 [⟨10, 15, 3⟩]],
+       [mkC 0 10 [⟨1, 2, 10⟩, ⟨3, 5, 11⟩, ⟨5, 7, 12⟩, ⟨7, 9, 13⟩], mkC 10 20 [⟨11, 12, 14⟩]]]
+    = .ok [[⟨"t5", "sa", some "0", 0, 10, [⟨1, 5, 66⟩, ⟨6, 9, 82⟩], none, [⟨"0", 0, 10⟩], 1⟩,
+            ⟨"t5", "sa", some "0", 10, 20, [⟨10, 15, 114⟩], none, [⟨"0", 10, 20⟩], 1⟩]] := by decide +kernel
+
+/-- the plain-stream guard of the rechunk transport holds of an ordinary stream -/
+example : plainStreamB chunkingA = true := by decide +kernel
 
 end Strax.C01
